@@ -244,15 +244,17 @@ def run(ctx):
     seen_opts = set()
     for n in walk_own(init.node):
         if isinstance(n, ast.Assign) and isinstance(n.value, ast.BoolOp) and isinstance(n.value.op, ast.Or):
-            t = norm(n.targets[0])
-            want = {"filter_": True, "stop": False}.get(t)
-            if want is None:
-                continue
-            seen_opts.add(t)
             vals = n.value.values
-            if norm(vals[0]) != "self.%s" % t:
-                ctx.viol("S4", init, n, "%s is `%s`, expected `self.%s or <default>`" % (t, norm(n.value), t))
+            first = norm(vals[0])
+            t = {"%s.filter_" % init.selfname: "filter_", "%s.stop" % init.selfname: "stop"}.get(first)
+            if t is None:
+                t = norm(n.targets[0])
+                if t in ("filter_", "stop"):
+                    seen_opts.add(t)
+                    ctx.viol("S4", init, n, "%s is `%s`, expected `self.%s or <default>`" % (t, norm(n.value), t))
                 continue
+            want = {"filter_": True, "stop": False}[t]
+            seen_opts.add(t)
             bad = [v for v in vals[1:] if _const_hook(p, init, v) is not want or _const_hook(p, init, v) is None]
             if bad:
                 ctx.viol("S4", init, n, "the default for %s (`%s`) is not a callable that returns %s for every node" % (
